@@ -85,6 +85,13 @@ func init() {
 		style(FuncSpec{File: "pkg/op/token_intospection.go", Name: "ParseTokenIntrospectionRequest", Lean: "ParseTokenIntrospectionRequest",
 			Params: []string{"(r : ResHttpReq)", "(introspector : ResProvider)"}, Ret: RetValErr, RetType: "(String × String)",
 			Rename: map[string]string{"ClientIDFromRequest()": "Hand.resClientIDFromRequest"}}),
+		// the two registration checks of the parsers (pkg/op/client.go): an assertion needs a private_key_jwt client, a
+		// client_secret_post client needs the method to be enabled
+		style(FuncSpec{File: "pkg/op/client.go", Name: "checkPrivateKeyJWTClient", Lean: "checkPrivateKeyJWTClient",
+			Params: []string{"(clientID : String)", "(storage : Store)"}, Ret: RetErr}),
+		style(FuncSpec{File: "pkg/op/client.go", Name: "checkAuthMethodPost", Lean: "checkAuthMethodPost",
+			Params: []string{"(clientID : String)", "(p : ResProvider)"}, Ret: RetErr,
+			Rename: map[string]string{"p.Storage()": "(p).clientStore"}}),
 		style(FuncSpec{File: "pkg/op/token_revocation.go", Name: "ParseTokenRevocationRequest", Lean: "ParseTokenRevocationRequest",
 			Params: []string{"(r : ResHttpReq)", "(revoker : ResProvider)"}, Ret: RetValErr, RetType: "(String × String × String)",
 			Rename: map[string]string{"VerifyJWTAssertion()": "Hand.resVerifyJWTAssertion r (Gen.VerifyJWTAssertion now)", "url.QueryUnescape()": "(r).queryUnescape",
